@@ -74,6 +74,10 @@ pub(super) struct VacantEntry<'a> {
 
 pub(super) trait Resolve {
     fn resolve(&mut self, key: Key) -> Ptr<'_>;
+
+    /// The key of the stream the caller is currently operating on, if the
+    /// resolver is itself a `Ptr` to a stream.
+    fn current_key(&self) -> Option<Key>;
 }
 
 // ===== impl Store =====
@@ -178,6 +182,10 @@ impl Store {
 impl Resolve for Store {
     fn resolve(&mut self, key: Key) -> Ptr<'_> {
         Ptr { key, store: self }
+    }
+
+    fn current_key(&self) -> Option<Key> {
+        None
     }
 }
 
@@ -425,6 +433,10 @@ impl<'a> Resolve for Ptr<'a> {
             key,
             store: &mut *self.store,
         }
+    }
+
+    fn current_key(&self) -> Option<Key> {
+        Some(self.key)
     }
 }
 
